@@ -29,7 +29,8 @@ QUICK_CORPUS = ("r7rs-tests", "syntax-tests", "unicode-tests", "lib_srfi_1_test"
                 "lib_chibi_weak-test", "lib_srfi_146_test", "lib_chibi_io-test", "lib_srfi_95_test",
                 "lib_chibi_string-test", "lib_srfi_151_test", "lib_chibi_json-test", "lib_chibi_numeric-test",
                 "lib_chibi_regexp-test", "lib_srfi_160_test", "lib_chibi_system-test", "lib_srfi_166_test",
-                "lib_chibi_process-test", "lib_srfi_38_test", "lib_chibi_syntax-case-test", "lib_srfi_130_test")
+                "lib_chibi_process-test", "lib_srfi_38_test", "lib_chibi_syntax-case-test", "lib_srfi_130_test",
+                "lib_chibi_shell-test")
 
 # programs whose detailed output depends on addresses / timing; compared on their pass/fail summary only
 # (all corpus programs are compared on summaries: the per-test dots are part of it)
@@ -137,6 +138,8 @@ def check(rep, tier, seed):
     jobs = []
     for name, args in tests:
         jobs.append((name, args, None, "hooks", None))
+        if name == "lib_chibi_shell-test" and tier == "quick":
+            jobs.append((name, args, "sites:2:8", "hooks", None))      # descriptors closed twice showed under this one
         if name == "c02-directed-bignum-carry" and tier == "quick":
             jobs.append((name, args, "sites:2:8", "hooks", None))      # the schedule under which the shift was caught
             jobs.append((name, args, "sites:2:8", "asan-rz", None))    # ... and with freed chunks poisoned: a stale read
